@@ -41,7 +41,8 @@ Inductive obs :=
 Inductive scen :=
 | ScP (fx : bool) (script : list (pact N))       (* positioned stream channel *)
 | ScU (keep : bool) (script : list (uact N))     (* unpositioned stream channel (medium keep-latest or not) *)
-| ScM (filtered fxm : bool) (script : list (mact N)).  (* map channel *)
+| ScM (filtered fxm : bool) (script : list (mact N))   (* map channel *)
+| ScQ (script : list (qact N)).                        (* map channel, paginated subscribe with concurrent writers *)
 
 Record case := mkCase {
   c_json : bool;
@@ -96,6 +97,8 @@ Definition model_pushes (c : case) : list push :=
   | ScM filtered fxm script =>
       if filtered && fxm then []      (* delta is not negotiated at all: nothing to reconstruct *)
       else map mev_push (snd (m_run N (blen_t T) (create_t T) (apply_t T) (esc_t T) (unesc_t T) j filtered (m_init N) script))
+  | ScQ script =>
+      map mev_push (snd (q_run N (blen_t T) (create_t T) (apply_t T) (esc_t T) (unesc_t T) j (q_init N) script))
   end.
 
 Definition corr (c : case) : bool :=
